@@ -142,6 +142,19 @@ theorem later_store_repairs (exp : Expected) (wf : WF exp) (n : Nat) (acts : Lis
   have inv' := runActs_inv wf (storeActs exp w) _ inv
   exact ⟨h1, h2, (inv'.markerComplete h1).1⟩
 
+/-- store_success_then_hit: in every reachable state (any interleaving, crashes, failures) in
+    which the marker is valid, a load is a HIT and serves exactly the pinned module files —
+    so "store returned nil ⇒ the next load is a hit with exactly the files", and after
+    `later_store_repairs` the repaired entry loads. -/
+theorem store_success_then_hit (exp : Expected) (wf : WF exp) (hside : SidesOutsideFiles exp)
+    (n : Nat) (acts : List Act)
+    (h : markerOK (runActs exp (init n) acts).entry = true) :
+    load exp (runActs exp (init n) acts).entry = .hit (moduleFilesOf (runActs exp (init n) acts).entry) ∧
+      sameSet (moduleFilesOf (runActs exp (init n) acts).entry) (exp.files.filter fun f => isModuleFile f.1) = true := by
+  have inv := runActs_inv wf acts (init n) (init_inv exp n)
+  obtain ⟨hc, hm⟩ := inv.markerComplete h
+  exact complete_loads_hit exp hside _ hc hm inv.keys inv.nodupKeys
+
 /-- provider_never_returns_missing: the cache provider either yields a load result that is not a
     miss, or an error. -/
 theorem provider_never_returns_missing (r1 : LoadResult) (putOk : Bool) (r2 : LoadResult) :
@@ -153,6 +166,7 @@ theorem provider_never_returns_missing (r1 : LoadResult) (putOk : Bool) (r2 : Lo
 def exExp : Expected :=
   { files := [("a.proto".toList, "A"), ("x.txt".toList, "X")], sides := [("v1_buf_yaml/buf.yaml".toList, "Y")] }
 example : WF exExp := ⟨by decide, by decide⟩
+example : SidesOutsideFiles exExp := by intro s hs; simp [exExp] at hs; subst hs; decide
 example : (runActs exExp (init 2) [.acquire 0, .truncate 0, .fill 0, .crash 0, .acquire 1, .truncate 1, .fill 1,
     .truncate 1, .fill 1, .truncate 1, .fill 1, .commit 1]).entry.find markerPath = some markerCanonical := by decide
 example : (match load exExp (runActs exExp (init 2) [.acquire 0, .truncate 0, .fill 0, .crash 0, .acquire 1, .truncate 1, .fill 1,
